@@ -178,7 +178,11 @@ func (w *Reconciler) syncJobTasks(
 	// NOTE(irvinlim): Avoid using List() which performs a complete linear search.
 	tasks := make([]jobtasks.Task, 0, len(rj.Status.Tasks))
 	for _, ref := range rj.Status.Tasks {
-		if task, err := taskMgr.Lister().Get(ref.Name); err == nil {
+		task, err := w.getTaskForRef(ctx, taskMgr, ref)
+		if err != nil {
+			return rj, err
+		}
+		if task != nil {
 			tasks = append(tasks, task)
 		}
 	}
@@ -233,6 +237,30 @@ func (w *Reconciler) syncJobTasks(
 	trace.Step("Final update status for tasks done")
 
 	return rj, nil
+}
+
+// getTaskForRef returns the task for a TaskRef from the cache. The cache may not
+// have observed a task that was only just created, so before an unfinished task
+// is treated as lost (which is irreversible), its absence is confirmed with the
+// apiserver. Returns nil if the task does not exist.
+func (w *Reconciler) getTaskForRef(
+	ctx context.Context, taskMgr jobtasks.Executor, ref execution.TaskRef,
+) (jobtasks.Task, error) {
+	task, err := taskMgr.Lister().Get(ref.Name)
+	if err == nil {
+		return task, nil
+	}
+	if !ref.FinishTimestamp.IsZero() {
+		return nil, nil
+	}
+	task, err = taskMgr.Client().Get(ctx, ref.Name)
+	if kerrors.IsNotFound(err) {
+		return nil, nil
+	}
+	if err != nil {
+		return nil, errors.Wrapf(err, "cannot get task %v", ref.Name)
+	}
+	return task, nil
 }
 
 // updateTaskRefStatus will update the CreatedTask fields in the Job's status from a list of tasks.
@@ -829,14 +857,13 @@ func (w *Reconciler) handleFinishFinalizer(
 	// Use CreatedTaskRefs as they are guaranteed to contain all tasks that have been created by this Job.
 	tasks := make([]jobtasks.Task, 0, len(rj.Status.Tasks))
 	for _, taskRef := range rj.Status.Tasks {
-		task, err := taskMgr.Lister().Get(taskRef.Name)
-		if kerrors.IsNotFound(err) {
-			continue
-		} else if err != nil {
-			return rj, errors.Wrapf(err, "cannot get task %v", taskRef.Name)
+		task, err := w.getTaskForRef(ctx, taskMgr, taskRef)
+		if err != nil {
+			return rj, err
 		}
-
-		tasks = append(tasks, task)
+		if task != nil {
+			tasks = append(tasks, task)
+		}
 	}
 
 	// There are some tasks that are still not deleted, so we need to delete them.
